@@ -47,3 +47,45 @@ Lemma lo_lt32 a : lo a < two32.
 Proof. unfold lo, two32. lia. Qed.
 Lemma hi_lo a : a = hi a * two32 + lo a.
 Proof. unfold hi, lo, two32. lia. Qed.
+
+(** ** Boolean forms, oriented as the compiler's lowering uses them *)
+Lemma eqb64 a v : (a =? v) = (hi a =? hi v) && (lo a =? lo v).
+Proof.
+  destruct (N.eqb_spec a v) as [->|H]; [now rewrite !N.eqb_refl|].
+  destruct (N.eqb_spec (hi a) (hi v)) as [E1|E1]; [|reflexivity].
+  destruct (N.eqb_spec (lo a) (lo v)) as [E2|E2]; [|reflexivity].
+  exfalso. apply H. apply eq64. auto.
+Qed.
+
+Lemma ltb64 a v : (a <? v) = (hi a <? hi v) || ((hi a =? hi v) && (lo a <? lo v)).
+Proof.
+  destruct (N.ltb_spec a v) as [H|H].
+  - apply lt64 in H. destruct H as [H|[H1 H2]].
+    + apply N.ltb_lt in H. now rewrite H.
+    + rewrite H1, N.eqb_refl, N.ltb_irrefl. apply N.ltb_lt in H2. now rewrite H2.
+  - destruct (N.ltb_spec (hi a) (hi v)) as [G|G]; [exfalso; assert (a < v) by (apply lt64; auto); lia|].
+    destruct (N.eqb_spec (hi a) (hi v)) as [E|E]; [|reflexivity].
+    destruct (N.ltb_spec (lo a) (lo v)) as [L|L]; [|reflexivity].
+    exfalso. assert (a < v) by (apply lt64; auto). lia.
+Qed.
+
+Lemma leb64 a v : (a <=? v) = (hi a <? hi v) || ((hi a =? hi v) && (lo a <=? lo v)).
+Proof.
+  destruct (N.leb_spec a v) as [H|H].
+  - apply le64 in H. destruct H as [H|[H1 H2]].
+    + apply N.ltb_lt in H. now rewrite H.
+    + rewrite H1, N.eqb_refl, N.ltb_irrefl. apply N.leb_le in H2. now rewrite H2.
+  - destruct (N.ltb_spec (hi a) (hi v)) as [G|G]; [exfalso; assert (a <= v) by (apply le64; auto); lia|].
+    destruct (N.eqb_spec (hi a) (hi v)) as [E|E]; [|reflexivity].
+    destruct (N.leb_spec (lo a) (lo v)) as [L|L]; [|reflexivity].
+    exfalso. assert (a <= v) by (apply le64; auto). lia.
+Qed.
+
+Lemma land0b64 a v : (N.land a v =? 0) = (N.land (hi a) (hi v) =? 0) && (N.land (lo a) (lo v) =? 0).
+Proof.
+  destruct (N.eqb_spec (N.land a v) 0) as [H|H].
+  - apply land64_zero in H. destruct H as [-> ->]. reflexivity.
+  - destruct (N.eqb_spec (N.land (hi a) (hi v)) 0) as [E1|E1]; [|reflexivity].
+    destruct (N.eqb_spec (N.land (lo a) (lo v)) 0) as [E2|E2]; [|reflexivity].
+    exfalso. apply H. apply land64_zero. auto.
+Qed.
